@@ -205,3 +205,310 @@ def refute_search(mod, proof, violations, ix, workdir, seed):
 
 
 refuters = {p.name: refute_search for p in proofs}
+
+
+# ---------------------------------------------------------------------------------------------
+# SpanData, the recordable the SDK's exporters receive (sdk/include/opentelemetry/sdk/trace/span_data.h): "what each exporter receives is
+# exactly the name (last UpdateName) ... the status ... set before End - as owned copies": every setter stores exactly its argument
+# (overwriting what an earlier call stored) and touches nothing else; strings are copied into storage the recordable owns.
+TU_SD = ("tu_span_data", '#include "opentelemetry/sdk/trace/span_data.h"\n')
+SD_PRE = r"""
+size_t g_k;
+/* ghost record of boundary calls */
+unsigned long g_amap_calls; const void *g_amap_self; const char *g_amap_key_data; unsigned long g_amap_key_len; const void *g_amap_value;
+unsigned long g_push_calls; const void *g_push_vec;
+/* snapshot of the element handed to std::vector::push_back (content, not a pointer into a dead object) */
+const char *g_ev_name_data; unsigned long g_ev_name_len; long g_ev_ts; const void *g_ev_attrs; unsigned long g_attr_ctor_calls; const void *g_attr_ctor_src;
+static void xc_havoc_ghosts(void) { size_t a; unsigned long b, c, d; g_k = a; g_amap_calls = b; g_push_calls = c; g_attr_ctor_calls = d;
+  g_amap_self = 0; g_amap_key_data = 0; g_amap_key_len = 0; g_amap_value = 0; g_push_vec = 0; g_ev_name_data = 0; g_ev_name_len = 0; g_ev_ts = 0; g_ev_attrs = 0; g_attr_ctor_src = 0; }
+#define XC_MAXS 4096UL
+/* an owned string: storage of its own (fresh), same length, same bytes */
+#define OWNED_COPY(s, sv) ((s).len == (sv).length_ && __CPROVER_is_fresh((s).data, (s).len) && (g_k < (s).len ==> (s).data[g_k] == (sv).data_[g_k]))
+#define SV_OK(sv) ((sv).length_ <= XC_MAXS && __CPROVER_is_fresh((sv).data_, (sv).length_))
+"""
+SD_POST = r"""
+/* std::string(const char *, size_t) / std::string(string_view): assumed contract (C++ standard): a copy in storage of its own */
+xc_str xc_string_copy(const char *data, size_t len)
+__CPROVER_requires(len <= XC_MAXS && __CPROVER_r_ok(data, len))
+__CPROVER_assigns()
+__CPROVER_ensures(__CPROVER_return_value.len == len && __CPROVER_is_fresh(__CPROVER_return_value.data, len))
+__CPROVER_ensures(g_k < len ==> __CPROVER_return_value.data[g_k] == data[g_k]);
+static void xc_amap_SetAttribute(xc_opaque *map, string_view key, const xc_opaque *value)
+{ g_amap_calls++; g_amap_self = map; g_amap_key_data = key.data_; g_amap_key_len = key.length_; g_amap_value = value; }
+/* AttributeMap(const KeyValueIterable &): the map built from the caller's attributes (its own contract: see AttributeMap proofs) */
+static xc_opaque xc_amap_from_iterable(const xc_opaque *attributes) { xc_opaque m; g_attr_ctor_calls++; g_attr_ctor_src = attributes; m.xc_unused = 0; return m; }
+#ifndef XC_HAVE_LINK
+int g_ln_ctx;
+#endif
+#ifdef XC_HAVE_EVENT
+static void xc_vec_push_back_SpanDataEvent(xc_opaque *vec, SpanDataEvent e)
+{ g_push_calls++; g_push_vec = vec; g_ev_name_data = e.name_.data; g_ev_name_len = e.name_.len; g_ev_ts = e.timestamp_.nanos_since_epoch_; g_ev_attrs = g_attr_ctor_src; }
+#endif
+#ifdef XC_HAVE_LINK
+SpanContext g_ln_ctx;
+static void xc_vec_push_back_SpanDataLink(xc_opaque *vec, SpanDataLink l)
+{ g_push_calls++; g_push_vec = vec; g_ln_ctx = l.span_context_; g_ev_attrs = g_attr_ctor_src; }
+#endif
+"""
+
+
+def _sd_str_ctor(em, node, args):
+    real = [a for a in args if a.get("kind") != "CXXDefaultArgExpr"]
+    if len(real) == 2:
+        return "xc_string_copy(%s, %s)" % (em.expr(real[0]), em.expr(real[1]))
+    if len(real) == 1:
+        t = em.ctype(real[0]["type"])
+        if t.base == "xc_str":
+            return em.expr(real[0])           # copy/move of a std::string value: the value itself (a std::string owns its bytes)
+        if t.base == "string_view":
+            sv = em.expr(real[0])
+            return "xc_string_copy((%s).data_, (%s).length_)" % (sv, sv)
+    if not real:
+        return "((xc_str){\"\", 0})"
+    raise common.ExtractionError("std::string construction from %s" % [a.get("type", {}).get("qualType") for a in real])
+
+
+def _configure_sd(cfg):
+    common.sdk_trace_boundary(cfg)
+    common.chrono_boundary(cfg)
+    cfg.value_classes |= {"string_view", "TraceId", "SpanId", "TraceFlags", "SpanContext", "SystemTimestamp"}
+    for n in ("std::basic_string", "std::__cxx11::basic_string"):
+        cfg.ctor_ext[n] = _sd_str_ctor
+        cfg.ext_methods[n + "::operator="] = lambda em, recv, args, n: "%s = %s" % (recv, _sd_str_ctor(em, n, args))
+        cfg.ext_methods[n + "::assign"] = lambda em, recv, args, n: "%s = %s" % (recv, _sd_str_ctor(em, n, args))
+        cfg.ext_methods[n + "::clear"] = lambda em, recv, args, n: "%s = ((xc_str){\"\", 0})" % recv
+    cfg.opaque_records["sdk::common::AttributeMap"] = "xc_opaque"
+    cfg.opaque_records["sdk::resource::Resource"] = "xc_opaque"
+    cfg.opaque_records["sdk::instrumentationscope::InstrumentationScope"] = "xc_opaque"
+    cfg.opaque_records["common::KeyValueIterable"] = "xc_opaque"
+    cfg.type_handlers.insert(0, common._variant_opaque)
+    unp = lambda r: (r["node"] if isinstance(r, dict) and r.get("xc_is_ptr") else r)
+    cfg.ctor_ext["AttributeMap"] = lambda em, node, args: "xc_amap_from_iterable(%s)" % (em.addr_of(args[0]) if args else "NULL")
+    cfg.ext_methods["std::vector::push_back"] = lambda em, recv, args, n: "xc_vec_push_back_%s(&(%s), %s)" % (em.ctype(args[0]["type"]).base, recv, em.expr(args[0]))
+    cfg.ext_q["AttributeMap::SetAttribute"] = lambda em, node, recv, args: "xc_amap_SetAttribute(%s, %s, %s)" % (em.addr_of(unp(recv)), em.expr(args[0]), em.addr_of(args[1]))
+
+
+contracts_sd = {}
+
+
+def _setter(fields_post, extra_req="", assigns="", ghosts=False):
+    return {"pre": "__CPROVER_requires(__CPROVER_is_fresh(self, sizeof(SpanData))" + extra_req + ")\n"
+            "__CPROVER_assigns(" + assigns + ")\n" + "".join("__CPROVER_ensures(%s)\n" % p for p in fields_post)}
+
+
+contracts_sd["SpanData_SetStatus"] = _setter(
+    ["self->status_code_ == code", "OWNED_COPY(self->status_desc_, description)"], " && SV_OK(description)", "self->status_code_, self->status_desc_")
+contracts_sd["SpanData_SetName"] = _setter(["OWNED_COPY(self->name_, name)"], " && SV_OK(name)", "self->name_")
+contracts_sd["SpanData_SetSpanKind"] = _setter(["self->span_kind_ == span_kind"], "", "self->span_kind_")
+contracts_sd["SpanData_SetTraceFlags"] = _setter(["self->flags_.rep_ == flags.rep_"], "", "self->flags_")
+contracts_sd["SpanData_SetStartTime"] = _setter(["self->start_time_.nanos_since_epoch_ == start_time.nanos_since_epoch_"], "", "self->start_time_")
+contracts_sd["SpanData_SetDuration"] = _setter(["self->duration_ == duration"], "", "self->duration_")
+contracts_sd["SpanData_SetResource"] = _setter(["self->resource_ == resource"], "", "self->resource_")
+contracts_sd["SpanData_SetInstrumentationScope"] = _setter(["self->instrumentation_scope_ == instrumentation_scope"], "", "self->instrumentation_scope_")
+
+contracts_sd["SpanData_SetAttribute"] = {"pre":
+    "__CPROVER_requires(__CPROVER_is_fresh(self, sizeof(SpanData)) && SV_OK(key) && __CPROVER_is_fresh(value, sizeof(*value)))\n"
+    "__CPROVER_assigns(g_amap_calls, g_amap_self, g_amap_key_data, g_amap_key_len, g_amap_value)\n"
+    # passed on to the span's own attribute map exactly once, with the caller's key and value
+    "__CPROVER_ensures(g_amap_calls == __CPROVER_old(g_amap_calls) + 1 && g_amap_self == &self->attribute_map_ && g_amap_key_data == key.data_ && g_amap_key_len == key.length_ && g_amap_value == value)\n"}
+EV_GHOSTS = "g_push_calls, g_push_vec, g_ev_name_data, g_ev_name_len, g_ev_ts, g_ev_attrs, g_attr_ctor_calls, g_attr_ctor_src, g_ln_ctx"
+contracts_sd["SpanData_AddEvent"] = {"pre":
+    "__CPROVER_requires(__CPROVER_is_fresh(self, sizeof(SpanData)) && SV_OK(name) && __CPROVER_is_fresh(attributes, sizeof(*attributes)))\n"
+    "__CPROVER_assigns(" + EV_GHOSTS + ")\n"
+    # exactly one element is appended to the span's own event list (std::vector::push_back appends at the end: call order is kept); it holds an
+    # owned copy of the name, the given timestamp and an attribute map built once from the caller's attributes
+    "__CPROVER_ensures(g_push_calls == __CPROVER_old(g_push_calls) + 1 && g_push_vec == &self->events_)\n"
+    "__CPROVER_ensures(g_ev_name_len == name.length_ && g_ev_name_data != name.data_ && g_ev_ts == timestamp.nanos_since_epoch_)\n"
+    "__CPROVER_ensures(g_k < name.length_ ==> g_ev_name_data[g_k] == name.data_[g_k])\n"
+    "__CPROVER_ensures(g_attr_ctor_calls == __CPROVER_old(g_attr_ctor_calls) + 1 && g_attr_ctor_src == attributes && g_ev_attrs == attributes)\n"}
+contracts_sd["SpanData_AddLink"] = {"pre":
+    "__CPROVER_requires(__CPROVER_is_fresh(self, sizeof(SpanData)) && __CPROVER_is_fresh(attributes, sizeof(*attributes)))\n"
+    "__CPROVER_assigns(" + EV_GHOSTS + ")\n"
+    "__CPROVER_ensures(g_push_calls == __CPROVER_old(g_push_calls) + 1 && g_push_vec == &self->links_)\n"
+    "__CPROVER_ensures(g_k < 16 ==> g_ln_ctx.trace_id_.rep_[g_k] == span_context.trace_id_.rep_[g_k])\n"
+    "__CPROVER_ensures(g_k < 8 ==> g_ln_ctx.span_id_.rep_[g_k] == span_context.span_id_.rep_[g_k])\n"
+    "__CPROVER_ensures(g_attr_ctor_calls == __CPROVER_old(g_attr_ctor_calls) + 1 && g_attr_ctor_src == attributes && g_ev_attrs == attributes)\n"}
+contracts_sd["SpanData_SetIdentity"] = {"pre":
+    "__CPROVER_requires(__CPROVER_is_fresh(self, sizeof(SpanData)))\n"
+    "__CPROVER_assigns(self->span_context_, self->parent_span_id_)\n"
+    "__CPROVER_ensures(g_k < 16 ==> self->span_context_.trace_id_.rep_[g_k] == span_context.trace_id_.rep_[g_k])\n"
+    "__CPROVER_ensures(g_k < 8 ==> (self->span_context_.span_id_.rep_[g_k] == span_context.span_id_.rep_[g_k] && self->parent_span_id_.rep_[g_k] == parent_span_id.rep_[g_k]))\n"
+    "__CPROVER_ensures(self->span_context_.trace_flags_.rep_ == span_context.trace_flags_.rep_ && self->span_context_.is_remote_ == span_context.is_remote_)\n"}
+
+proofs_sd = [
+    Proof("SpanData_SetAttribute", [("SpanData::SetAttribute", 2)], enforce="SpanData_SetAttribute"),
+    Proof("SpanData_AddEvent", [("SpanData::AddEvent", 3)], enforce="SpanData_AddEvent", replace=["xc_string_copy"]),
+    Proof("SpanData_AddLink", [("SpanData::AddLink", 2)], enforce="SpanData_AddLink"),
+    Proof("SpanData_SetIdentity", [("SpanData::SetIdentity", 2)], enforce="SpanData_SetIdentity"),
+    Proof("SpanData_SetStatus", [("SpanData::SetStatus", 2)], enforce="SpanData_SetStatus", replace=["xc_string_copy"]),
+    Proof("SpanData_SetName", [("SpanData::SetName", 1)], enforce="SpanData_SetName", replace=["xc_string_copy"]),
+    Proof("SpanData_SetSpanKind", [("SpanData::SetSpanKind", 1)], enforce="SpanData_SetSpanKind"),
+    Proof("SpanData_SetTraceFlags", [("SpanData::SetTraceFlags", 1)], enforce="SpanData_SetTraceFlags"),
+    Proof("SpanData_SetStartTime", [("SpanData::SetStartTime", 1)], enforce="SpanData_SetStartTime"),
+    Proof("SpanData_SetDuration", [("SpanData::SetDuration", 1)], enforce="SpanData_SetDuration"),
+    Proof("SpanData_SetResource", [("SpanData::SetResource", 1)], enforce="SpanData_SetResource"),
+    Proof("SpanData_SetInstrumentationScope", [("SpanData::SetInstrumentationScope", 1)], enforce="SpanData_SetInstrumentationScope"),
+]
+for _p in proofs_sd:
+    _p.tu = TU_SD
+    _p.pre_c = SD_PRE
+    _p.post_struct_c = SD_POST
+    _p.spec_headers = ("xc_trace_boundary.h",)
+    _p.force_records = ("nostd::string_view",)
+    _p.configure = _configure_sd
+    _p.contracts = contracts_sd
+    _p.timeout = 300
+    if _p.name == "SpanData_AddEvent":
+        _p.defines_c = "#define XC_HAVE_EVENT 1\n"
+    if _p.name == "SpanData_AddLink":
+        _p.defines_c = "#define XC_HAVE_LINK 1\n"
+proofs += proofs_sd
+assumed_contracts = dict(globals().get("assumed_contracts", {}))
+assumed_contracts["xc_string_copy"] = "std::string(const char *, size_t) / std::string(string_view): a copy of the bytes in storage of its own (C++ standard)"
+
+
+def refute_spandata(mod, proof, violations, ix, workdir, seed):
+    """directed native search on the real SpanData: every sequence of up to 3 setter / AddEvent / SetAttribute calls (arguments in buffers that
+    die after the call), final content compared with a model"""
+    import re as _re, subprocess
+    binpath = R.build_native("c04_spandata_native", [_os.path.join(R.core.HERE, "replay", "c04_spandata_native.cc")], ["-O1"])
+    full = subprocess.run([binpath, "search"], stdout=subprocess.PIPE, stderr=subprocess.STDOUT, text=True, timeout=300).stdout
+    m = _re.findall(r"^FOUND (.*)$", full, _re.M)
+    if not m:
+        return None
+    args = m[-1].split(" ")
+    r = R.native_check("c04_spandata_native", ["c04_spandata_native.cc"], args, ["-O1"])
+    r["input"] = {"driver_args": args, "meaning": "seq <ops>: st:<code>:<description> SetStatus, nm:<name> SetName, at:<key>:<int> SetAttribute, ev:<name>[:k=v,...] AddEvent, ki:<kind> SetSpanKind",
+                  "found_by": "directed native search (refute mode)"}
+    return r if r["reproduced"] else None
+
+
+for _p in proofs_sd:
+    refuters[_p.name] = refute_spandata
+
+
+# ---------------------------------------------------------------------------------------------
+# AttributeMap (sdk/include/opentelemetry/sdk/common/attribute_utils.h), the attribute store of spans, events and links: "the attributes with
+# last-write-wins per key": SetAttribute leaves the value just given under the key, whether or not the key was present; the constructors from a
+# KeyValueIterable do exactly that for every pair the iterable delivers (inductive step: arbitrary map state before one callback invocation).
+TU_AM = ("tu_attribute_map", '#include "opentelemetry/sdk/common/attribute_utils.h"\n')
+AM_PRE = r"""
+const char *g_key_data; unsigned long g_key_len; unsigned long g_keys_made;
+unsigned long g_fe_calls; const void *g_fe_src; unsigned long g_cb_calls;
+static void xc_havoc_ghosts(void);
+#define SV_OK(sv) ((sv).length_ <= 4096 && __CPROVER_is_fresh((sv).data_, (sv).length_))
+#define AM_GHOSTS g_slot_present, g_slot_val, g_slot_key, g_umap_ops, g_key_data, g_key_len, g_keys_made
+"""
+AM_POST = r"""
+static void xc_havoc_ghosts(void) { int p; xc_attrval v; unsigned long a, b, c, d; g_slot_present = p; g_slot_val = v; g_slot_key = a; g_umap_ops = b; g_key_data = 0; g_key_len = 0; g_keys_made = 0; g_fe_calls = c; g_cb_calls = d; g_fe_src = 0; }
+/* std::string(key): the map key is identified by the bytes it is built from */
+static xc_key xc_mkkey_sv(string_view sv) { xc_key k; g_keys_made++; k.id = g_keys_made; g_key_data = sv.data_; g_key_len = sv.length_; return k; }
+static xc_attrval xc_convert(const xc_attrval *v) { return *v; }
+/* the pair the iterable delivers in the callback invocation under consideration: arbitrary */
+char g_cb_keybuf[8]; string_view g_cb_key; xc_attrval g_cb_val;
+"""
+
+
+def _am_key(em, node):
+    s = em._strip_all(node)
+    while s.get("kind") in ("CXXFunctionalCastExpr", "CXXBindTemporaryExpr", "MaterializeTemporaryExpr", "ImplicitCastExpr") and s.get("inner"):
+        s = em._strip_all(s["inner"][0])
+    if s.get("kind") in ("CXXConstructExpr", "CXXTemporaryObjectExpr", "CXXMemberCallExpr"):
+        # std::string(key) / key.operator std::string()
+        inner = [a for a in s.get("inner", []) if a.get("kind") != "CXXDefaultArgExpr"]
+        if s["kind"] == "CXXMemberCallExpr":
+            return "xc_mkkey_sv(%s)" % em.expr(inner[0]["inner"][0])
+        if len(inner) == 1 and em.ctype(inner[0]["type"]).base == "string_view":
+            return "xc_mkkey_sv(%s)" % em.expr(inner[0])
+        if len(inner) == 1:
+            return _am_key(em, inner[0])
+        if len(inner) == 2:
+            return "xc_mkkey_sv((string_view){.data_ = %s, .length_ = %s})" % (em.expr(inner[0]), em.expr(inner[1]))
+    raise common.ExtractionError("map key is not built from the string_view key: %s" % s.get("kind"))
+
+
+def _am_attr_type(em, base, targs, name):
+    if base in ("nostd::variant", "variant", "absl::otel_v1::variant") and targs and len(targs) > 4:
+        return common.CT("xc_attrval")
+    return None
+
+
+def _am_foreach(em, node, recv, args):
+    lam = em._find_lambda(args[0])
+    if lam is None:
+        raise common.ExtractionError("ForEachKeyValue without a lambda argument")
+    li = em.lambda_info(lam, None)
+    caps = [em.capture_arg(c) for c in li["captures"]]
+    r = recv["node"] if isinstance(recv, dict) and recv.get("xc_is_ptr") else recv
+    src = em.expr(r) if (isinstance(recv, dict) and recv.get("xc_is_ptr")) else em.addr_of(r)
+    em.report["KeyValueIterable::ForEachKeyValue(callback) -> one callback invocation on an arbitrary pair from an arbitrary map state (inductive step)"] += 1
+    return "(g_fe_calls++, g_fe_src = (const void *)(%s), g_cb_calls++, %s(%s))" % (src, li["cname"], ", ".join(caps + ["g_cb_key", "g_cb_val"]))
+
+
+def _configure_am(cfg):
+    cfg.value_classes |= {"string_view"}
+    cfg.type_handlers.insert(0, _am_attr_type)
+    common.umap_boundary(cfg, _am_key)
+    cfg.opaque_records["common::KeyValueIterable"] = "xc_opaque"
+    cfg.ext["visit"] = lambda em, node, recv, args: "xc_convert(%s)" % em.addr_of(args[1])
+    # the map is the base class sub-object of AttributeMap: the receiver is *this
+    cfg.ext_methods["std::unordered_map::operator[]"] = lambda em, recv, args, n: "(*xc_umap_index((xc_umap *)0, %s))" % _am_key(em, args[0])
+    cfg.ext_methods["std::unordered_map::emplace"] = lambda em, recv, args, n: "xc_umap_emplace((xc_umap *)0, %s, %s)" % (_am_key(em, args[0]), em.expr(args[1]))
+    cfg.ext_methods["std::unordered_map::try_emplace"] = cfg.ext_methods["std::unordered_map::emplace"]
+    cfg.ext_methods["std::unordered_map::insert_or_assign"] = lambda em, recv, args, n: "xc_umap_insert_or_assign((xc_umap *)0, %s, %s)" % (_am_key(em, args[0]), em.expr(args[1]))
+    cfg.ext_methods["std::unordered_map::reserve"] = lambda em, recv, args, n: "(void)0"
+    cfg.ext_q["KeyValueIterable::ForEachKeyValue"] = _am_foreach
+    for k in ("absl::otel_v1::variant", "nostd::variant", "variant"):
+        cfg.ext_methods[k + "::operator="] = lambda em, recv, args, n: "%s = %s" % (recv, em.expr(args[0]))
+    cfg.ext_q["KeyValueIterable::size"] = lambda em, node, recv, args: "0UL"
+
+
+SET_POST = ("__CPROVER_ensures(g_slot_present && g_slot_val.id == %(v)s)\n"
+            "__CPROVER_ensures(g_keys_made == 1 && g_slot_key == 1 && g_key_data == %(k)s.data_ && g_key_len == %(k)s.length_)\n")
+contracts_am = {
+    "AttributeMap_SetAttribute": {"pre":
+        "__CPROVER_requires(__CPROVER_is_fresh(self, sizeof(*self)) && __CPROVER_is_fresh(value, sizeof(*value)))\n"
+        "__CPROVER_assigns(AM_GHOSTS)\n" + SET_POST % {"v": "value->id", "k": "key"} +
+        "__CPROVER_ensures(g_umap_ops == __CPROVER_old(g_umap_ops) + 1)\n"},
+}
+AM_CTOR = "AttributeMap_ctor_1_ccommon_KeyValueIterable"
+AM_LAM = AM_CTOR + "__l1"
+for _ln in (AM_LAM,):
+    contracts_am[_ln] = {"pre":
+        "__CPROVER_requires(__CPROVER_is_fresh(self, sizeof(*self)) && g_keys_made == 0)\n"
+        "__CPROVER_assigns(AM_GHOSTS)\n" + SET_POST % {"v": "value.id", "k": "key"} +
+        "__CPROVER_ensures(__CPROVER_return_value)\n"}   # the iteration goes on: no pair is skipped
+
+contracts_am[AM_CTOR] = {"pre":
+    "__CPROVER_requires(__CPROVER_is_fresh(attributes, sizeof(*attributes)) && g_keys_made == 0)\n"
+    "__CPROVER_assigns(AM_GHOSTS, g_fe_calls, g_fe_src, g_cb_calls)\n"
+    # the caller's iterable is walked exactly once with a callback that stores the delivered pair
+    "__CPROVER_ensures(g_fe_calls == __CPROVER_old(g_fe_calls) + 1 && g_fe_src == attributes && g_cb_calls == __CPROVER_old(g_cb_calls) + 1)\n" +
+    SET_POST % {"v": "g_cb_val.id", "k": "g_cb_key"}}
+
+proofs_am = [
+    Proof("AttributeMap_ctor_iterable", [("AttributeMap::AttributeMap", 1, "const common::KeyValueIterable &")], enforce=AM_CTOR, replace=[AM_LAM],
+          desc="AttributeMap(const KeyValueIterable &) walks the caller's iterable exactly once with the storing callback"),
+    Proof("AttributeMap_ctor_iterable_ptr", [("AttributeMap::AttributeMap", 1, "const common::KeyValueIterable *")], enforce=AM_CTOR, replace=[AM_LAM],
+          desc="AttributeMap(const KeyValueIterable *), non-null argument: same"),
+    Proof("AttributeMap_SetAttribute", [("AttributeMap::SetAttribute", 2)], enforce="AttributeMap_SetAttribute",
+          desc="after SetAttribute(key, value) the map holds (the owned form of) value under key, whether or not key was present"),
+    Proof("AttributeMap_ctor_iterable_callback", [("AttributeMap::AttributeMap", 1, "const common::KeyValueIterable &")], enforce=AM_LAM,
+          desc="AttributeMap(const KeyValueIterable &): each pair delivered by the iterable is stored under its key, replacing an earlier value (last write wins), and the iteration continues"),
+    Proof("AttributeMap_ctor_iterable_ptr_callback", [("AttributeMap::AttributeMap", 1, "const common::KeyValueIterable *")], enforce=AM_LAM,
+          desc="AttributeMap(const KeyValueIterable *): same"),
+]
+for _p in proofs_am:
+    _p.tu = TU_AM
+    _p.pre_c = AM_PRE
+    _p.post_struct_c = AM_POST
+    _p.spec_headers = ()
+    _p.force_records = ("nostd::string_view",)
+    _p.configure = _configure_am
+    _p.contracts = contracts_am
+    _p.umap = True
+    # an attribute value (AttributeValue / OwnedAttributeValue) is its identity; the conversion to the owned form keeps it
+    _p.defines_c = "typedef struct xc_attrval { unsigned long id; } xc_attrval;\n#define XC_UMAP_VAL xc_attrval\n#define XC_UMAP_ZERO {0}\n"
+    _p.timeout = 300
+    refuters[_p.name] = refute_spandata
+proofs += proofs_am
